@@ -662,7 +662,7 @@ Definition on_stream_end (s : ids) (sid : N) : ids :=
     (END_STREAM seen), [queued] = bytes of it not yet forwarded,
     [eos] = [front_received_end_of_stream], which makes [handle_header_state]
     answer any further DATA on the stream with GOAWAY(STREAM_CLOSED).
-    [require_terminated] = the condition as it is since fix 26165b4 ([true]);
+    [require_terminated] = the condition as it is since fix 0056615 ([true]);
     [false] = the condition before it. *)
 Record upstream := mkup { terminated : bool; queued : N; eos : bool }.
 
